@@ -592,6 +592,24 @@ m('c09_also_cross', ['C09'], 'jesse/modes/backtest_mode.py',
         if not candle_includes_price(candle, lp):
             return
         p.exchange.futures_leverage_mode = 'isolated'""")
+m('c09_bankruptcy_short_like_long', ['C09'], 'jesse/models/Position.py',
+  "            return self.entry_price * (1 + self._initial_margin_rate)\n        else:\n            return np.nan",
+  "            return self.entry_price * (1 + self._initial_margin_rate) if self.leverage < 20 else self.entry_price * (1 + self._initial_margin_rate / 2)\n        else:\n            return np.nan",
+  note='short positions with leverage >= 20 are closed at half the margin distance')
+m('c09_liq_price_from_opening_entry', ['C09'], 'jesse/models/Position.py',
+  "                return self.entry_price * (1 - self._initial_margin_rate + 0.004)",
+  "                return (self.entry_price if abs(self.qty) <= abs(self.previous_qty or 0) or not self.previous_qty else self.entry_price * 1.002) * (1 - self._initial_margin_rate + 0.004)",
+  note='after an increase the liquidation price is computed from a shifted entry')
+m('c09_liq_qty_previous', ['C09'], 'jesse/modes/backtest_mode.py',
+  "            'qty': jh.prepare_qty(p.qty, closing_order_side),", "            'qty': jh.prepare_qty(p.qty if p.previous_qty in (0, None) or abs(p.previous_qty) < abs(p.qty) else p.previous_qty, closing_order_side),",
+  note='after a partial reduction the forced close is sized with the size before the reduction (reduce-only clips it: may be equivalent in position terms but not in the order record)')
+m('c09_liquidation_skipped_when_resting_orders', ['C09'], 'jesse/modes/backtest_mode.py',
+  "    if candle_includes_price(candle, p.liquidation_price):\n        closing_order_side",
+  "    if candle_includes_price(candle, p.liquidation_price) and store.orders.count_active_orders(exchange, symbol) < 3:\n        closing_order_side")
+m('c09_liquidation_keeps_resting_orders', ['C09'], 'jesse/strategies/Strategy.py',
+  "        self._broadcast('route-close-position')\n        self._execute_cancel()\n        self.on_close_position(order)",
+  "        self._broadcast('route-close-position')\n        if not (order.type == 'MARKET' and order.reduce_only and store.app.total_liquidations > 0 and order.submitted_via is None):\n            self._execute_cancel()\n        self.on_close_position(order)",
+  note='after a liquidation the resting exit orders of the position stay active')
 m('c09_includes_strict_high', ['C09', 'C02'], 'jesse/services/candle.py',
   'return (price >= candle[4]) and (price <= candle[3])', 'return (price >= candle[4]) and (price < candle[3])')
 m('c09_fast_liq_uses_last_minute_only', ['C09'], 'jesse/modes/backtest_mode.py',
